@@ -138,6 +138,8 @@ def _dispatch(kind, tag, pos, v, text=None):
                 sub = act['nest']
                 if fr.kind == 'compile':
                     env.count('construction_calls_back:nested_' + sub['op'])
+                elif sub['op'] == 'compile':
+                    env.count('parse_calls_back:nested_construction')
                 saved_outer, c.outer_text = c.outer_text, text      # what the callback was handed as `_text`
                 try:
                     out = run_op(env, c, sub, fr.path + ('%s@%s' % (tag, pos),))
